@@ -32,6 +32,9 @@ pub enum Kind {
     ManyFiles,
     /// one method name with n entries on overlapping, non-identical ranges (i+1 ..= i+60)
     ManyOverlap,
+    /// n class blocks in scrambled order of which the last third re-declares obfuscated names of the first two thirds
+    /// with different content (the later block wins)
+    DupClasses,
 }
 
 #[derive(Clone, Debug, Serialize, Deserialize)]
@@ -163,6 +166,29 @@ pub fn build(kind: Kind, n: usize) -> (MapFile, Universe) {
                 ranges.push((p as u64 + 1, p as u64 + 60));
             }
         }
+        Kind::DupClasses => {
+            let distinct = (2 * n / 3).max(1);
+            for i in 0..n {
+                let name = if i < distinct { perm(i, distinct) } else { perm(i * 5 + 1, distinct) };
+                blocks.push(Block {
+                    orig: format!("com.example.D{i}"),
+                    obf: format!("d{name}"),
+                    items: vec![method("x", &format!("y{i}"), &format!("p{i}"), Some((1, 1)), OLines::S(i as u64)), method(&format!("only{i}"), "z", "", None, OLines::None)],
+                });
+            }
+            for p in 0..distinct.min(40) {
+                oc.insert(format!("d{p}"));
+            }
+            for p in positions(distinct) {
+                oc.insert(format!("d{p}"));
+            }
+            for p in positions(n).into_iter().chain(0..n.min(40)) {
+                om.insert(format!("only{p}"));
+                ps.insert(format!("p{p}"));
+            }
+            rc.insert(format!("d{n}"));
+            ranges.push((1, 1));
+        }
         Kind::Giant => {
             blocks.clear();
             for c in 0..500 {
@@ -200,6 +226,16 @@ pub fn cases(ctx: &Ctx, prop: &str) -> Vec<ScaleCase> {
             // one case per kind beyond the 16-bit boundary even in the quick tier
             out.push(ScaleCase { kind, n: 65537, prop: prop.to_string() });
         }
+    }
+    // small counts densely: thresholds that come from somewhere else (a library's small-input path, an inline
+    // capacity, a table with one entry too few) sit at 16, 20, 32, ... - cheaper to enumerate than to guess
+    for kind in [Kind::ManyEntries, Kind::ManyMatching, Kind::ManyMethods, Kind::ManyClasses, Kind::Straddle, Kind::ManyFiles, Kind::ManyOverlap] {
+        for n in 1..=40usize {
+            out.push(ScaleCase { kind, n, prop: prop.to_string() });
+        }
+    }
+    for n in (2..=48usize).chain([64, 65, 100, 257, 1000, 4097]) {
+        out.push(ScaleCase { kind: Kind::DupClasses, n, prop: prop.to_string() });
     }
     // sections > 16 MiB: in the quick tier only for C09 (the layout decoder is the cheapest oracle for it)
     if prop == "C09" || (ctx.tier == Tier::Thorough && prop == "C14") {
